@@ -49,6 +49,12 @@ def bad_item(kind, atom_rank):
         return np.zeros((1,) + atom + (1,), dtype=DT)
     if kind == 'unconv':
         return np.full((1,) + atom, 'x', dtype=object).tolist()
+    if kind == 'complexlist':
+        return np.full((1,) + atom, 1 + 2j, dtype=object).tolist()
+    if kind == 'bareatom':         # shaped like ONE atom, without the variable first axis
+        return np.zeros(atom, dtype=DT).tolist()
+    if kind == 'strnum':
+        return '12'
     raise KeyError(kind)
 
 
@@ -171,13 +177,13 @@ def build_cases(tier):
         for ar in (0, 1, 2):
             for n in (0, 1, 2, 3):
                 for pos in range(0, n + 1):
-                    for kind in ('iter-raises', 'iter-valueerror', 'iter-abort', 'badatom', 'badrank', 'unconv', 'badatom0', 'badzero'):
+                    for kind in ('iter-raises', 'iter-valueerror', 'iter-abort', 'badatom', 'badrank', 'unconv', 'badatom0', 'badzero', 'complexlist') + (('bareatom',) if ar else ('strnum',)):
                         for entry in ('iterappend-list', 'iterappend-gen'):
                             if q and entry == 'iterappend-gen' and kind not in ('iter-raises', 'iter-abort', 'badatom'):
                                 continue
                             cases.append({'start': start, 'atom_rank': ar, 'entry': entry, 'nitems': n, 'kind': kind,
                                           'position': pos})
-            for kind in ('badatom', 'badrank', 'unconv', 'badatom0', 'badzero'):
+            for kind in ('badatom', 'badrank', 'unconv', 'badatom0', 'badzero', 'complexlist') + (('bareatom',) if ar else ('strnum',)):
                 cases.append({'start': start, 'atom_rank': ar, 'entry': 'append', 'nitems': 0, 'kind': kind,
                               'position': 0})
     # index overflow with small index types
